@@ -179,6 +179,10 @@ class LeanSide:
         import translate
 
         translate.REPO = REPO
+        if callable(names):
+            if not translate.GENERATORS:
+                translate.load_plugins()
+            names = [n for n in translate.GENERATORS if names(n)]
         st = translate.run(names, quiet=True)
         self.translate_status = {k: st[k] for k in names if k in st}
         broken = [(k, v.get("error")) for k, v in self.translate_status.items() if not v.get("ok")]
